@@ -241,7 +241,7 @@ func runC10(e *Env) {
 			if f == nil {
 				continue
 			}
-			for _, g := range core.WithAnon(f) {
+			for _, g := range append(core.WithAnon(f), core.AbsorbedInto(f)...) {
 				for _, o := range core.NewBounds(e.P, g, sums).Obligations() {
 					construct := fmt.Sprintf("%s:%s %s", core.FnName(g), o.Kind, o.Desc)
 					if o.OK {
